@@ -84,7 +84,7 @@ StepChecks(E2, XD2, SN, r, R, R2, o, forced) ==
      <<"C02_FlagExact", o.missing = Outstanding(R2)>>,
      <<"C15_OnlyDeadCollected", C15_OnlyDeadCollected(E2, R, R2)>>,
      <<"C15_GcOffKeepsAll", cfg[r].gc \/ forced \/ (R2.gone \ R.gone) \subseteq (R2.dlv \ R.dlv) \cup R.pend>>,
-     <<"C17_PubAgrees", PubAgrees(E2, R2, o)>>,
+     <<"C17_PubAgrees", ("nopub" \in DOMAIN o) \/ PubAgrees(E2, R2, o)>>,
      <<"C06_SvExact", SvAgrees(R2, o)>>,
      <<"C01_Converge", \A b \in DOMAIN S \ {r} : C01_Converge(E2, XD2, R2, S[b])>>,
      <<"C04_PairOrder", \A b \in DOMAIN S \ {r} : C04_PairOrder(R2, S[b])>> >>
@@ -248,6 +248,27 @@ Sync ==
      IN ApplyTo(Ev.t, Ev.upd, Ev.emit, Ev.outcome, Ev.wire, Ev.obs, Ev.nev, Ev.hasfol, Ev.fol, Extra)
   /\ UNCHANGED <<ln0, bid, cfg>>
 
+(* one committed transaction of the repository's own test-suite, recorded by hook H3 (no call, no public
+   view): the property-level transition constraints and cross-replica invariants only *)
+Txn ==
+  /\ Ev.k = "txn" /\ ~failed
+  /\ LET r  == Ev.r
+         us == Ev.upd.ins
+         E2 == Extend(us \o Ev.emit.ins \o Ev.pendu)
+         R  == S[r]
+         R2 == ObsRep(Ev.obs, R.dlv \cup InsIds(us), R.ddel \cup Ids(Ev.upd.del) \cup ImplicitDel(us))
+         XD2 == XD \cup Ids(Ev.upd.del)
+         ok == WellFormed(E2, Ev.obs)
+         chk == IF ~ok THEN << <<"C04_Placed", FALSE>> >>
+                ELSE StepChecks(E2, XD2, SEEN, r, R, R2, Ev.obs, TRUE)
+         dr == (IF ok /\ ~PlacementPredicted(E2, R, R2) THEN {"placement"} ELSE {})
+               \cup (IF ok /\ ~StashTight(R2) THEN {"stash-not-tight"} ELSE {})
+     IN /\ Record(Failing(chk), dr)
+        /\ E' = E2 /\ XD' = XD2 /\ U' = U /\ SEEN' = SEEN
+        /\ S' = [S EXCEPT ![r] = R2]
+        /\ cnt' = [cnt EXCEPT !.ev = @ + 1, !.checks = @ + Len(chk)]
+  /\ UNCHANGED <<ln0, bid, cfg>>
+
 Nondet ==
   /\ Ev.k = "nondet" /\ ~failed
   /\ Record({"C01_Deterministic"}, {})
@@ -258,7 +279,7 @@ TInit == /\ l = 1 /\ ln0 = 0 /\ bid = "" /\ E = EmptyFn /\ XD = {} /\ U = <<>> /
 
 TNext == /\ l <= Len(Rec)
          /\ l' = l + 1
-         /\ (Reset \/ Skip \/ Local \/ Deliver \/ SvOfUpdate \/ Sync \/ Nondet)
+         /\ (Reset \/ Skip \/ Local \/ Deliver \/ SvOfUpdate \/ Sync \/ Txn \/ Nondet)
 
 TSpec == TInit /\ [][TNext]_vars
 
